@@ -113,3 +113,16 @@ Proof.
   - field. lra.
   - apply Rlt_le. apply Rdiv_lt_0_compat; lra.
 Qed.
+
+(* The code takes the scan INDEX t = np.arange(n) in the phase, not the scan time: for scans at s + t*dt the
+   index is (time - first time) / dt whatever the origin s, whereas time / dt adds the origin-dependent
+   offset (pi/n) * (s/dt) * k to the phase (and the columns are then no longer the DCT-II basis). *)
+Lemma phase_from_times n k t s dt : dt <> 0 ->
+  PI / INR n * (((s + INR t * dt) - s) / dt + / 2) * INR k = phase n t k /\
+  PI / INR n * ((s + INR t * dt) / dt + / 2) * INR k = phase n t k + PI / INR n * (s / dt) * INR k.
+Proof.
+  intros H.
+  assert (E1 : ((s + INR t * dt) - s) / dt = INR t) by (field; exact H).
+  assert (E2 : (s + INR t * dt) / dt = INR t + s / dt) by (field; exact H).
+  rewrite E1, E2. unfold phase. split; ring.
+Qed.
